@@ -63,11 +63,26 @@ def davUpd (dav : Rat) (c nb : Cell) : Rat :=
   let d := if c.disp ≠ 0 then c.len / c.disp else dav
   if nb.disp ≠ 0 then d + nb.len / nb.disp else d
 
+/-- `if (ishift != 0) { … if (dav) m = 2 / dav; }`: the dispersive part of a factor -/
+def dispPart (moving : Bool) (dav : Rat) : Rat := if moving && decide (dav ≠ 0) then 2 / dav else 0
+
+/-- `dav` after the two conditional statements (only executed with flow) -/
+def newDav (s : Setup) (dav : Rat) (c nb : Cell) : Rat := if s.moving then davUpd dav c nb else dav
+
 /-- mixing factor of cell `c` with its neighbour `nb` before the division by `nmix`, and the new `dav` -/
 def neighbourMix (s : Setup) (dav : Rat) (c nb : Cell) : Rat × Rat :=
-  let dav' := if s.moving then davUpd dav c nb else dav
-  let dispPart : Rat := if s.moving && decide (dav' ≠ 0) then 2 / dav' else 0
-  ((dispPart + diffcHere s / (c.len * c.len + c.len * nb.len)) * corrDisp s, dav')
+  ((dispPart s.moving (newDav s dav c nb) + diffcHere s / (c.len * c.len + c.len * nb.len)) * corrDisp s,
+   newDav s dav c nb)
+
+/-- the `if (i < count_cells)` block: factor `m1[i]` with the higher cell (0 for the last cell) and `dav` -/
+def hiBlock (s : Setup) (dav : Rat) (c : Cell) : List Cell → Rat × Rat
+  | [] => (0, dav)
+  | nx :: _ => neighbourMix s dav c nx
+
+/-- the `if (i > 1)` block: factor `m[i]` with the lower cell (0 for the first cell) and `dav` -/
+def loBlock (s : Setup) (dav : Rat) (c : Cell) : Option Cell → Rat × Rat
+  | none => (0, dav)
+  | some pv => neighbourMix s dav c pv
 
 /-- the loop `for (i = 1; i <= count_cells; i++)` of the non-multicomponent branch: for every cell the
 pair `(m[i], m1[i])` (factor with the lower, with the higher cell); `prev` is cell `i−1` (none for
@@ -75,12 +90,8 @@ pair `(m[i], m1[i])` (factor with the lower, with the higher cell); `prev` is ce
 def cellLoop (s : Setup) : Option Cell → List Cell → Rat → List (Rat × Rat)
   | _, [], _ => []
   | prev, c :: rest, dav =>
-    let hi : Rat × Rat := match rest with
-      | [] => (0, dav)
-      | nx :: _ => neighbourMix s dav c nx
-    let lo : Rat × Rat := match prev with
-      | none => (0, hi.2)
-      | some pv => neighbourMix s hi.2 c pv
+    let hi := hiBlock s dav c rest
+    let lo := loBlock s hi.2 c prev
     (lo.1, hi.1) :: cellLoop s (some c) rest lo.2
 
 def modHead {β : Type} (f : β → β) : List β → List β
@@ -101,33 +112,47 @@ def pairSum (p : Rat × Rat) : Rat := p.1 + p.2
 def boundaryMix (s : Setup) (c : Cell) : Rat :=
   diffcHere s / (c.len * c.len) + (if s.moving then c.disp / c.len else 0)
 
+/-- running maximum of `m[i] + m1[i]` over the cell loop -/
+def loopMax (ps : List (Rat × Rat)) : Rat := ps.foldl (fun mx p => updMax mx (pairSum p)) 0
+
+/-- `if (bcon_first == 1) m[1] = …` -/
+def firstFix (s : Setup) (ps : List (Rat × Rat)) : List (Rat × Rat) :=
+  if s.bconFirst = 1 then
+    match s.cells.head? with
+    | some c => modHead (fun p => (boundaryMix s c, p.2)) ps
+    | none => ps
+  else ps
+
+/-- `mf12 = m[1] + m1[1]; if (mf12 > maxmix) maxmix = mf12` inside `if (bcon_first == 1)` -/
+def firstMax (s : Setup) (ps1 : List (Rat × Rat)) (mx : Rat) : Rat :=
+  if s.bconFirst = 1 then
+    match ps1.head? with
+    | some p => updMax mx (pairSum p)
+    | none => mx
+  else mx
+
+/-- `if (bcon_last == 1) m1[count_cells] = …` -/
+def lastFix (s : Setup) (ps : List (Rat × Rat)) : List (Rat × Rat) :=
+  if s.bconLast = 1 then
+    match s.cells.getLast? with
+    | some c => modLast (fun p => (p.1, boundaryMix s c)) ps
+    | none => ps
+  else ps
+
+def lastMax (s : Setup) (ps2 : List (Rat × Rat)) (mx : Rat) : Rat :=
+  if s.bconLast = 1 then
+    match ps2.getLast? with
+    | some p => updMax mx (pairSum p)
+    | none => mx
+  else mx
+
 /-- the factors before division by `nmix`, and `maxmix`, in the order the code computes them -/
 def rawMix (s : Setup) : List (Rat × Rat) × Rat :=
   let ps := cellLoop s none s.cells 0
-  let mx0 := ps.foldl (fun mx p => updMax mx (pairSum p)) 0
-  -- bcon_first == 1 : m[1] is overwritten
-  let ps1 := if s.bconFirst = 1 then
-      match s.cells.head? with
-      | some c => modHead (fun p => (boundaryMix s c, p.2)) ps
-      | none => ps
-    else ps
-  let mx1 := if s.bconFirst = 1 then
-      match ps1.head? with
-      | some p => updMax mx0 (pairSum p)
-      | none => mx0
-    else mx0
-  -- bcon_last == 1 : m1[count_cells] is overwritten
-  let ps2 := if s.bconLast = 1 then
-      match s.cells.getLast? with
-      | some c => modLast (fun p => (p.1, boundaryMix s c)) ps1
-      | none => ps1
-    else ps1
-  let mx2 := if s.bconLast = 1 then
-      match ps2.getLast? with
-      | some p => updMax mx1 (pairSum p)
-      | none => mx1
-    else mx1
-  (ps2, mx2)
+  let ps1 := firstFix s ps
+  let mx1 := firstMax s ps1 (loopMax ps)
+  let ps2 := lastFix s ps1
+  (ps2, lastMax s ps2 mx1)
 
 /-- `l_nmix` as a function of `maxmix` -/
 def nmixOf (s : Setup) (maxmix : Rat) : Nat :=
@@ -232,6 +257,7 @@ def transportRun (s : Setup) (shifts : Nat) (c : Col Rat) : List (Col Rat) :=
 def advectionRun {α : Type} (shifts : Nat) (c : Col α) : List (Col α) :=
   runWith (fun c => ({ c with cells := (c.first :: c.cells).dropLast } : Col α)) shifts c
 
-def Col.sum (c : Col Rat) : Rat := c.cells.foldr (· + ·) 0
+/-- column inventory of one quantity (cells 1..n) -/
+def Col.sum (c : Col Rat) : Rat := c.cells.sum
 
 end PhreeqcVerif.Transport
